@@ -18,7 +18,7 @@ def check(prog, ctx):
     ctx.rule('C03.b', 'recursion wiring (parameter contract fa=F(a), fb=F(b), fc=F((a+b)/2), S=Simpson(a,b)): every call site - the two recursive '
              'ones on [a,c] and [c,b] and the top-level one - passes arguments that satisfy the contract for the sub-interval it passes', 2)
     ctx.rule('C03.c', 'tolerance and depth: recursive calls pass epsilon/2 and depth-1; base case depth<=0; acceptance |S2-S| <= 15 epsilon with '
-             '15 the Richardson denominator of C03.a', 2)
+             '15 the Richardson denominator of C03.a; the only accept without that test (depth exhausted) sets the non-convergence flag', 3)
     ctx.rule('C03.d', 'evaluation budget and locations: the helper evaluates the integrand exactly twice per activation (quarter points), the '
              'entry three times (a, b, midpoint), and recurses twice with depth-1: at most 2^(depth+2)+1 evaluations, all inside [a,b]', 2)
     ctx.rule('C03.e', 'front matter: a==b returns 0 before any evaluation; limits are ordered by the helper and the result carries the sign '
@@ -132,6 +132,47 @@ def check(prog, ctx):
             detail = 'recurses iff depth>0 and |S2-S| > 15*epsilon' if okacc else 'acceptance rows differ %s, difference term ok=%s' % (rows[:3], diff_ok)
     ctx.decide('C03.c', 'acceptance', helper, okacc, detail, 'acceptance test is not "depth<=0 or |S2-S| <= 15*epsilon" (absolute): ' + detail,
                witness={'condition': str(cond)[:300]})
+    # an accept without the error test (depth exhausted, |S2-S| > 15 eps) is the one place where the returned value need not
+    # meet the error request: it must at least be flagged through the by-reference status parameter
+    flag = [p for p in helper.params if p.get('byref') and not p.get('constref') and p['ty'] == 'bool']
+    if len(absd) >= 1 and len(flag) == 1:
+        D2 = Symbol('DIFF', nonnegative=True)
+        unflagged = []
+        n_unconv = 0
+        for o in acc:
+            c3 = o.cond.subs(absd[0], D2)
+            try:
+                hit = bool(c3.subs({depth: 0, D2: 100.0, eps: 1.0}))
+            except TypeError:
+                hit = None
+            if hit is None:
+                unflagged = None
+                break
+            if hit:
+                n_unconv += 1
+                fv = o.state.env.get(flag[0]['id'])
+                if fv not in (S.true, True, 1, sp.Integer(1)):
+                    unflagged.append(str(fv))
+        if unflagged is None:
+            ctx.undecided('C03.c', 'unconverged-accept-flagged', helper, 'accepting path condition does not evaluate on (depth, difference, epsilon)')
+        else:
+            ctx.decide('C03.c', 'unconverged-accept-flagged', helper, n_unconv >= 1 and not unflagged,
+                       'a panel accepted only because the depth is exhausted sets the status flag `%s` (reported by Integrate as a non-convergence warning)' % flag[0]['name'],
+                       'a panel accepted with |S2-S| > 15*epsilon at depth 0 does not set the status flag `%s` (value %s): an unconverged result is returned silently' % (flag[0]['name'], unflagged[:1]))
+    if len(flag) == 1:
+        # ... and the entry point reports a set flag
+        fpos = [i_ for i_, p_ in enumerate(helper.params) if p_ is flag[0]][0]
+        passed = [strip_casts(c_['args'][fpos]) for c_ in calls(entry) if (c_.get('callee') or {}).get('sig') == helper.sig and len(c_.get('args', [])) > fpos]
+        ids = set(x_.get('id') for x_ in passed if x_.get('k') == 'Ref')
+        reported = False
+        for s_ in walk_stmts(entry.body):
+            if s_['k'] == 'If' and any(n_.get('k') == 'Ref' and n_.get('id') in ids for n_ in walk_expr(s_['cond'])):
+                for t_ in walk_stmts(s_['then']):
+                    for e_ in stmt_exprs(t_):
+                        if any(n_.get('k') == 'Call' and n_.get('kind') == 'op' and n_.get('op') == '<<' for n_ in walk_expr(e_)):
+                            reported = True
+        ctx.decide('C03.c', 'unconverged-reported', entry, bool(ids) and reported, 'Integrate prints a warning when the helper set the non-convergence flag',
+                   'the non-convergence flag of the helper is not reported by Integrate (an unconverged value is returned silently)')
     # ---- C03.d evaluation budget
     evals = [c for c in calls(helper, into_lambdas=False) if c.get('kind') == 'stdfn' and strip(c.get('fn', {})).get('name') == names[0]]
     recs = [c for c in calls(helper, into_lambdas=False) if (c.get('callee') or {}).get('q') == HQ]
